@@ -1,0 +1,12 @@
+//go:build verif
+
+package oracle
+
+import "sync"
+
+// VerifResetOnce re-arms the package-level sync.Once that guards the lazy construction of the
+// in-memory aggregator context in BeginBlock, so that a verification harness can simulate a
+// node restart (or run several independent application instances) inside one process.
+func VerifResetOnce() {
+	once = sync.Once{}
+}
